@@ -103,6 +103,27 @@ def grep_forbidden():
     return hits
 
 
+def facade_mapping():
+    """(feature on?, macro name) -> entry point of entrait_macros, read from /repo/src/lib.rs.
+    The model's `Variant` is chosen by this mapping (EntraitProofs/C17: addUnimock / addExport);
+    E1 calls the entry points directly, so the mapping itself is checked here (statically) and by
+    the feature-on / feature-off probes of E2 (dynamically)."""
+    try:
+        text = open(os.path.join(REPO, "src", "lib.rs")).read()
+    except OSError:
+        return None
+    out = {}
+    for m in re.finditer(r'#\[cfg\((not\()?feature\s*=\s*"unimock"\)?\)\]\s*mod\s+macros\s*\{(.*?)\n\}', text, re.S):
+        on = m.group(1) is None
+        for u in re.finditer(r"pub\s+use\s+entrait_macros::(\w+)(?:\s+as\s+(\w+))?\s*;", m.group(2)):
+            out[(on, u.group(2) or u.group(1))] = u.group(1)
+    return out
+
+
+EXPECTED_FACADE = {(True, "entrait"): "entrait_unimock", (True, "entrait_export"): "entrait_export_unimock",
+                   (False, "entrait"): "entrait", (False, "entrait_export"): "entrait_export"}
+
+
 # ---------------------------------------------------------------------------------------------
 # running cases
 # ---------------------------------------------------------------------------------------------
@@ -238,7 +259,18 @@ def run_check(prop, tier, seed):
         proof_ok = False
         no_input_reasons.append("forbidden constructs in Lean sources: %s" % forb[:5])
 
+    if prop in ("C10", "C17"):
+        fm = facade_mapping()
+        if fm != EXPECTED_FACADE:
+            no_input_reasons.append("src/lib.rs no longer maps (feature, macro name) to the entry points the model's "
+                                    "variants stand for: found %s" % (fm,))
+
     import focus
+    if prop == "C17":
+        parsed = focus.doc_table_from_source()
+        if parsed != focus.doc_table_transcribed():
+            no_input_reasons.append("the option table in src/lib.rs (%s) differs from its transcription in tools/focus.py "
+                                    "and EntraitProofs/C17.lean (`documented`)" % (parsed,))
     plan = focus.plan(prop, tier, seed)
     cases = plan["cases"]
     by_id = {c[0]: c for c in cases}
